@@ -926,6 +926,199 @@ fn reuse_and_payload_cases(out: &mut Out, ctx: &mut Ctx, rng: &mut Rng, n: usize
 	}
 }
 
+// ---------------------------------------------------------------------------------------------
+// numeric CLI options at their boundary values through the REAL binary, judged by definition
+// (selected levels = min..=max) – no repo option code in the oracle (seed C06-10: 0 as "not given")
+// ---------------------------------------------------------------------------------------------
+fn cli_zoom_one(out: &mut Out, ctx: &mut Ctx, bin: &Path, mn: Option<u32>, mx: Option<u32>, bd: Option<u32>, f: bool, s: bool) {
+	let dec = |b: Blob, comp: TileCompression| match decompress(b, &comp) {
+		Ok(d) => String::from_utf8_lossy(d.as_slice()).to_string(),
+		Err(_) => "undecodable".to_string(),
+	};
+	// dense source, levels 0..=3
+	let mut tiles: Vec<C> = vec![];
+	for z in 0..=3u8 {
+		for y in 0..(1u32 << z) {
+			for x in 0..(1u32 << z) {
+				tiles.push((x, y, z));
+			}
+		}
+	}
+	let cover = TileBBoxPyramid::new_full(3);
+	let sc = Scen { tiles: tiles.clone(), cover, f: false, s: false, req: None, src_comp: TileCompression::Gzip, dst_comp: None, format: TileFormat::JSON, force: false };
+	let src_path = target_path(ctx, "versatiles");
+	ctx.rt.block_on(convert_tiles_container(sc.source().boxed(), TilesConverterParameters::new_default(), &src_path)).unwrap();
+	let dst = target_path(ctx, "tar");
+	let mut a: Vec<String> = vec!["convert".into()];
+	if let Some(v) = mn {
+		a.push(format!("--min-zoom={v}"));
+	}
+	if let Some(v) = mx {
+		a.push(format!("--max-zoom={v}"));
+	}
+	if let Some(v) = bd {
+		a.push("--bbox=-180,-90,180,90".into());
+		a.push(format!("--bbox-border={v}"));
+	}
+	if f {
+		a.push("--flip-y".into());
+	}
+	if s {
+		a.push("--swap-xy".into());
+	}
+	a.push(src_path.clone());
+	a.push(dst.clone());
+	let (code, stderr) = run_bin(bin, &a);
+	let line = format!("C06 cli-zoom {} {} {} {}", mn.map_or("-".into(), |v| v.to_string()), mx.map_or("-".into(), |v| v.to_string()), bd.map_or("-".into(), |v| v.to_string()), fs_str(f, s));
+	let mut e: Option<String> = None;
+	let not_u8 = mn.is_some_and(|v| v > 255) || mx.is_some_and(|v| v > 255);
+	// by definition: level z is selected iff min <= z <= max (a missing limit does not restrict)
+	let want: BTreeMap<C, String> = tiles.iter().filter(|t| mn.map_or(true, |v| t.2 as u32 >= v) && mx.map_or(true, |v| t.2 as u32 <= v)).map(|t| (t_fwd(f, s, *t), String::from_utf8(payload(t)).unwrap())).collect();
+	if stderr.contains("panicked at") {
+		e = Some(format!("panicked: {}", trunc(stderr.lines().find(|l| l.contains("panicked")).unwrap_or(""), 160)));
+	} else if not_u8 {
+		if code == Some(0) {
+			e = Some("a zoom limit above 255 was accepted".into());
+		}
+	} else if code == Some(0) {
+		match catch(|| read_all(ctx, &dst, &dec)) {
+			Ok(Ok((_, items, _))) => {
+				let got: BTreeMap<C, String> = items.into_iter().collect();
+				if got != want {
+					let levels = |m: &BTreeMap<C, String>| m.keys().map(|c| c.2).collect::<BTreeSet<u8>>();
+					e = Some(format!("output holds levels {:?} ({} tiles); by definition min..=max selects levels {:?} ({} tiles)", levels(&got), got.len(), levels(&want), want.len()));
+				}
+			}
+			_ if want.is_empty() => {}
+			_ => e = Some("output cannot be read back".into()),
+		}
+	} else if !want.is_empty() {
+		e = Some(format!("the conversion failed (exit {code:?}) although levels are selected: {}", trunc(&stderr, 160)));
+	}
+	out.eval(&line, true);
+	out.count("cli_boundary_runs");
+	out.oracle(e.is_none(), &format!("C06 cli-zoom: `versatiles {}`: {}", a[..a.len() - 2].join(" "), e.clone().unwrap_or_default()), json!({"kind": "cli_zoom_boundary", "min": mn, "max": mx, "border": bd}), json!({"case": line, "cmd": a.join(" ")}));
+	cleanup(&dst);
+	cleanup(&src_path);
+}
+
+fn cli_boundary_cases(out: &mut Out, ctx: &mut Ctx, rng: &mut Rng, thorough: bool) {
+	let Some(bin) = vth_bin() else { return };
+	let vals: [u32; 9] = [0, 1, 2, 3, 4, 30, 31, 32, 255];
+	let mut combos: Vec<(Option<u32>, Option<u32>, Option<u32>)> = vec![];
+	for v in vals {
+		combos.push((Some(v), None, None));
+		combos.push((None, Some(v), None));
+	}
+	for (a, b) in [(0, 0), (0, 3), (1, 1), (3, 3), (2, 1), (0, 255), (31, 31), (255, 0), (1, 0), (0, 1), (3, 255)] {
+		combos.push((Some(a), Some(b), None));
+	}
+	for bd in [0u32, 1] {
+		combos.push((None, Some(0), Some(bd)));
+		combos.push((Some(0), None, Some(bd)));
+		combos.push((None, None, Some(bd)));
+	}
+	combos.push((Some(256), None, None)); // not a u8: must be rejected by the argument parser
+	combos.push((None, Some(256), None));
+	for (i, (mn, mx, bd)) in combos.iter().enumerate() {
+		if !thorough && i % 2 == 1 && i > 30 {
+			continue;
+		}
+		cli_zoom_one(out, ctx, &bin, *mn, *mx, *bd, i % 4 == 1, i % 4 == 2);
+	}
+	let _ = rng;
+}
+
+// ---------------------------------------------------------------------------------------------
+// file sources of every format × requested boxes that cut through the stored 256-blocks: payloads are
+// coordinate-stamped and compared byte for byte after the conversion (seed C06-9)
+// ---------------------------------------------------------------------------------------------
+fn file_source_cases(out: &mut Out, ctx: &mut Ctx, rng: &mut Rng, n: usize) {
+	for i in 0..n {
+		let kind = TARGETS[i % 5]; // versatiles, pmtiles, tar, mbtiles, dir
+		let (f, s) = (rng.chance(1, 2), rng.chance(1, 2));
+		let (format, comp) = if kind == "mbtiles" { (TileFormat::PBF, TileCompression::Gzip) } else { (TileFormat::JSON, *rng.pick(&COMPS)) };
+		// a dense-ish cluster at zoom >= 9: inside one block, or straddling a 256 border
+		let z = rng.range(9, 14) as u8;
+		let nb = 1u64 << (z - 8);
+		let (bx, by) = (rng.range(0, nb - 1), rng.range(0, nb - 1));
+		let straddle = rng.chance(1, 2) && bx + 1 < nb;
+		let (cx, cy) = if straddle { ((bx + 1) * 256 - rng.range(1, 6), by * 256 + rng.range(0, 200)) } else { (bx * 256 + rng.range(10, 200), by * 256 + rng.range(10, 200)) };
+		let (w, h) = (rng.range(3, 12), rng.range(3, 12));
+		let mut tiles: BTreeMap<C, Vec<u8>> = BTreeMap::new();
+		for y in cy..cy + h {
+			for x in cx..cx + w {
+				if rng.chance(5, 6) && x < (1u64 << z) && y < (1u64 << z) {
+					tiles.insert((x as u32, y as u32, z), payload(&(x as u32, y as u32, z)));
+				}
+			}
+		}
+		if rng.chance(1, 2) {
+			tiles.insert((0, 0, 2), payload(&(0, 0, 2)));
+			tiles.insert((3, 1, 2), payload(&(3, 1, 2)));
+		}
+		if tiles.is_empty() {
+			continue;
+		}
+		let src_path = target_path(ctx, kind);
+		let mut src = mem_with(&tiles, format, comp);
+		if let Err(e) = ctx.rt.block_on(versatiles_container::write_to_filename(&mut src, &src_path)) {
+			out.notes.push(format!("file_source_cases: could not write the {kind} source: {e}"));
+			cleanup(&src_path);
+			continue;
+		}
+		// requested pyramid in OUTPUT coordinates: a sub-box of the image of the cluster (cuts the stored block)
+		let img: Vec<C> = tiles.keys().map(|t| t_fwd(f, s, *t)).filter(|c| c.2 == z).collect();
+		let (ix0, iy0, ix1, iy1) = (img.iter().map(|c| c.0).min().unwrap(), img.iter().map(|c| c.1).min().unwrap(), img.iter().map(|c| c.0).max().unwrap(), img.iter().map(|c| c.1).max().unwrap());
+		let m = ((1u64 << z) - 1) as u32;
+		let sub = match rng.below(4) {
+			0 => (ix0 + 1, iy0 + 1, ix1.saturating_sub(1).max(ix0 + 1), iy1.saturating_sub(1).max(iy0 + 1)), // strictly inside
+			1 => (ix0.saturating_sub(2), iy0 + 2, (ix0 + 3).min(m), (iy0 + 4).min(m)),                           // across the west edge
+			2 => ((ix0 + ix1) / 2, iy0.saturating_sub(1), (ix1 as u64 + 2).min(m as u64) as u32, (iy0 + iy1) / 2), // across north/east
+			_ => (ix0, iy0, ix0, iy1),                                                                            // one column
+		};
+		let mut req = TileBBoxPyramid::new_empty();
+		req.include_bbox(&TileBBox::new(z, sub.0.min(sub.2), sub.1.min(sub.3), sub.2.max(sub.0), sub.3.max(sub.1)).unwrap());
+		if rng.chance(1, 2) {
+			req.include_bbox(&TileBBox::new_full(2).unwrap());
+		}
+		let dst = target_path(ctx, "tar");
+		let want: BTreeMap<C, Vec<u8>> = tiles.iter().map(|(t, p)| (t_fwd(f, s, *t), p.clone())).filter(|(c, _)| in_b(&norm(req.get_level_bbox(c.2)), c.0, c.1)).collect();
+		let r = catch(|| {
+			ctx.rt.block_on(async {
+				let rd = get_reader(&src_path).await?;
+				convert_tiles_container(rd, TilesConverterParameters::new(Some(TileCompression::Gzip), Some(req.clone()), false, f, s), &dst).await
+			})
+		});
+		let line = format!("C06 filesrc {kind} {} {} {}", fs_str(f, s), box_str(req.get_level_bbox(z)), tiles_str(&tiles.keys().cloned().collect::<Vec<C>>()));
+		let e = match r {
+			Ok(Ok(())) => match catch(|| raw_tiles_at(ctx, &dst, &want.keys().cloned().collect::<Vec<C>>())) {
+				Ok(Ok(got)) if got == want => None,
+				Ok(Ok(got)) => {
+					let d = want.iter().find(|(c, p)| got.get(*c) != Some(*p)).map(|(c, _)| *c).or(got.keys().find(|c| !want.contains_key(*c)).cloned());
+					Some(format!("output ({} tiles) is not the selected T-image ({} tiles); at {:?} the output carries {:?}, expected {:?}", got.len(), want.len(), d, d.and_then(|c| got.get(&c)).map(|p| String::from_utf8_lossy(p).to_string()), d.and_then(|c| want.get(&c)).map(|p| String::from_utf8_lossy(p).to_string())))
+				}
+				_ if want.is_empty() => None,
+				_ => Some("output cannot be read back".to_string()),
+			},
+			Ok(Err(err)) if want.is_empty() => {
+				let _ = err;
+				None
+			}
+			Ok(Err(err)) => Some(format!("conversion failed: {err:#}")),
+			Err(p) => Some(format!("conversion panicked: {}", trunc(&p, 160))),
+		};
+		out.eval(&line, true);
+		out.count(&format!("file_source_{kind}"));
+		if straddle {
+			out.count("file_source_straddling_256");
+		}
+		out.oracle(e.is_none(), &format!("C06 file-source: {kind} source, requested box cutting its stored block: {}", e.clone().unwrap_or_default()), json!({"kind": "file_source_subbox", "format": kind, "flip": f, "swap": s}), json!({"case": line}));
+		cleanup(&src_path);
+		cleanup(&dst);
+	}
+}
+
 const TARGETS: [&str; 5] = ["versatiles", "pmtiles", "tar", "mbtiles", "dir"];
 
 /// all tiles of a re-opened container: stream over every advertised level, checked against lookups
@@ -1761,7 +1954,17 @@ fn binary_cases(out: &mut Out, ctx: &mut Ctx, rng: &mut Rng, n: usize) {
 						})
 					}) {
 						Ok(Ok((got, got_comp))) => {
-							if got != want {
+							// independent of every reader: the T-image of the generated tile set inside the requested pyramid,
+							// each tile with its own coordinate-stamped payload
+							let oracle: BTreeMap<C, String> = tiles
+								.iter()
+								.map(|t| (t_fwd(f, s, *t), String::from_utf8(payload(t)).unwrap()))
+								.filter(|(c, _)| req.as_ref().map_or(true, |q| in_b(&norm(q.get_level_bbox(c.2)), c.0, c.1)))
+								.collect();
+							if got != oracle {
+								let d = oracle.iter().find(|(c, p)| got.get(*c) != Some(*p)).map(|(c, _)| *c).or(got.keys().find(|c| !oracle.contains_key(*c)).cloned());
+								e = Some((format!("binary output ({} tiles) is not the selected T-image of the source ({} tiles), first difference at {:?}: output has {:?}, expected {:?}", got.len(), oracle.len(), d, d.and_then(|c| got.get(&c)), d.and_then(|c| oracle.get(&c))), "binary_vs_oracle"));
+							} else if got != want {
 								let d = want.iter().find(|(c, p)| got.get(*c) != Some(*p)).map(|(c, _)| *c).or(got.keys().find(|c| !want.contains_key(*c)).cloned());
 								e = Some((format!("binary output ({} tiles) differs from the library conversion with the same options ({} tiles), first difference at {:?}: binary {:?}, library {:?}", got.len(), want.len(), d, d.and_then(|c| got.get(&c)), d.and_then(|c| want.get(&c))), "binary_differs"));
 							} else if got_comp != want_comp && !got.is_empty() {
@@ -2046,6 +2249,13 @@ fn replay_line(out: &mut Out, ctx: &mut Ctx, line: &str) {
 				do_stream(out, ctx, &sc, &parse_box(t[4]));
 			}
 		}
+		"cli-zoom" if t.len() == 6 => {
+			if let Some(bin) = vth_bin() {
+				let on = |x: &str| if x == "-" { None } else { x.parse::<u32>().ok() };
+				let (f, s) = flags(t[5]);
+				cli_zoom_one(out, ctx, &bin, on(t[2]), on(t[3]), on(t[4]), f, s);
+			}
+		}
 		"reuse" if t.len() == 6 => {
 			let target = TARGETS.iter().find(|x| **x == t[2]).copied().unwrap_or("tar");
 			let (f, s) = flags(t[3]);
@@ -2128,6 +2338,8 @@ pub fn run(args: &Args) {
 	}
 	edge_sweep(&mut out, &mut ctx, &mut rng, args.thorough());
 	reuse_and_payload_cases(&mut out, &mut ctx, &mut rng, args.n(25, 300));
+	cli_boundary_cases(&mut out, &mut ctx, &mut rng, args.thorough());
+	file_source_cases(&mut out, &mut ctx, &mut rng, args.n(40, 500));
 	binary_cases(&mut out, &mut ctx, &mut rng, args.n(40, 400));
 	if args.thorough() {
 		serve_cases(&mut out, &mut ctx, &mut rng, 40);
